@@ -757,6 +757,25 @@ def _unsorted_follow_error(req, io, mo):
     return ends_err(io) or ends_err(mo)
 
 
+def _copy_src_links(req, impl):
+    """number of link entries at or below the (lexically resolved) source of a copy in the dumped state"""
+    import posixpath
+    try:
+        a = req.split(' ')
+        src = unhx(a[1]).decode('utf8', 'replace')
+        recs = impl.split(' ## ', 1)[1].split('|')
+        cwd = bytes.fromhex(recs[0].split(' ')[1]).decode('utf8', 'replace')
+        for pr in ('file://', 'ftp://', 'http://', 'https://'):
+            if src.startswith(pr):
+                src = src[len(pr):]
+        k = posixpath.normpath(posixpath.join(cwd, src)).replace('//', '/')
+        kh = k.encode().hex()
+        pre = kh if kh == '2f' else kh + '2f'
+        return sum(1 for r in recs if r.startswith('E ') and ' l=1 ' in r and (r.split(' ')[1] == kh or r.split(' ')[1].startswith(pre)))
+    except Exception:
+        return 0
+
+
 def _only_modes_differ(a, b):
     """two state dumps differ only in the mode fields of entries"""
     import re
@@ -813,7 +832,7 @@ def cmp_line(req, impl, model, cls=None):
         return 'dead'
     if op in ('copy', 'copy_b') and io == mo and io.startswith('ok') and _only_link_kinds_differ(impl, model):
         return 'dead'    # a copied link gets its kind from whether its target exists at that moment: order-dependent when the target is created by the same copy
-    if op == 'copy_b' and req.split(' ')[5:6] == ['1'] and io == mo and io.startswith('ok') and _only_modes_differ(impl, model):
+    if op == 'copy_b' and req.split(' ')[5:6] == ['1'] and io == mo and io.startswith('ok') and _copy_src_links(req, impl) > 0 and _only_modes_differ(impl, model):
         return 'dead'    # with follow two source entries (a link and its target, two links to one target) can land on the same destination key: the surviving mode depends on the iteration order
     if op in ('copy', 'copy_b') and cls == 'copy_overlap':
         return 'dead'    # source and destination overlap (decided by the driver on the resolved keys): order-dependent, also in which error comes first
